@@ -321,9 +321,14 @@ impl<const H: usize> Reader<H> {
         offset: u64,
         flushed_offset: u64,
     ) -> Result<Record<'_, H>, ReadError> {
-        let record_header_buf = self
-            .read_ahead_buf
-            .read(&self.file, offset, RECORD_HEAD_SIZE)?;
+        let generation = self.flushed_offset.generation();
+        let record_header_buf = self.read_ahead_buf.read(
+            &self.file,
+            offset,
+            RECORD_HEAD_SIZE,
+            flushed_offset,
+            generation,
+        )?;
 
         if is_truncation_marker(&record_header_buf[..RECORD_HEAD_SIZE]) {
             return Err(ReadError::TruncationMarker { offset });
@@ -353,9 +358,13 @@ impl<const H: usize> Reader<H> {
             return Err(ReadError::Crc32cMismatch { offset });
         }
 
-        let payload = self
-            .read_ahead_buf
-            .read(&self.file, payload_offset, payload_len)?;
+        let payload = self.read_ahead_buf.read(
+            &self.file,
+            payload_offset,
+            payload_len,
+            flushed_offset,
+            generation,
+        )?;
 
         let header = &payload[..H];
         let compressed_data = &payload[H..];
@@ -529,6 +538,8 @@ impl<const H: usize> Reader<H> {
         {
             self.read_ahead_buf.invalidate();
         }
+        // Other readers sharing the flushed offset may have buffered the old header
+        self.flushed_offset.bump_generation();
 
         // Sync to ensure durability
         self.file.sync_data()?;
@@ -578,6 +589,7 @@ struct ReadAheadBuf {
     offset: u64, // File offset of the buffer start
     pos: usize,  // Current read position in buffer
     valid_len: usize,
+    generation: u64, // Generation of the segment when the buffer was filled
 }
 
 impl ReadAheadBuf {
@@ -587,6 +599,7 @@ impl ReadAheadBuf {
             offset: 0,
             pos: 0,
             valid_len: 0,
+            generation: 0,
         }
     }
 
@@ -606,8 +619,21 @@ impl ReadAheadBuf {
         self.valid_len = 0;
     }
 
-    fn read(&mut self, file: &File, offset: u64, length: usize) -> Result<&[u8], ReadError> {
+    fn read(
+        &mut self,
+        file: &File,
+        offset: u64,
+        length: usize,
+        flushed_offset: u64,
+        generation: u64,
+    ) -> Result<&[u8], ReadError> {
         let end_offset = offset + length as u64;
+
+        // Bytes buffered before a truncation or header replacement may have been overwritten
+        if self.generation != generation {
+            self.invalidate();
+            self.generation = generation;
+        }
 
         // If offset is within the valid read-ahead range
         if offset >= self.offset && end_offset <= (self.offset + self.valid_len as u64) {
@@ -616,7 +642,7 @@ impl ReadAheadBuf {
         }
 
         // Fill the read-ahead buffer for the requested offset & length
-        self.fill(file, offset, length)?;
+        self.fill(file, offset, length, flushed_offset)?;
 
         // Ensure we now have enough valid data
         if offset < self.offset || end_offset > (self.offset + self.valid_len as u64) {
@@ -631,7 +657,13 @@ impl ReadAheadBuf {
         Ok(&self.buf[start..start + length])
     }
 
-    fn fill(&mut self, file: &File, offset: u64, mut length: usize) -> Result<(), ReadError> {
+    fn fill(
+        &mut self,
+        file: &File,
+        offset: u64,
+        mut length: usize,
+        flushed_offset: u64,
+    ) -> Result<(), ReadError> {
         let end_offset = offset + length as u64;
 
         // Set the new read-ahead offset aligned to 64KB
@@ -659,7 +691,9 @@ impl ReadAheadBuf {
             total_read += bytes_read;
         }
 
-        self.valid_len = total_read;
+        // Only bytes below the flushed offset are immutable; anything beyond it may still
+        // change on disk and must be read again once it has been flushed.
+        self.valid_len = total_read.min(flushed_offset.saturating_sub(self.offset) as usize);
 
         Ok(())
     }
